@@ -256,3 +256,136 @@ pub fn expand_capture_roundtrip() {
     assert!(c.ops().len() == 1 && c.ops()[0] == op);
     std::mem::forget(c);
 }
+
+/// The `idx`-th change of an op according to the statement (None past the end).
+fn expected_change(op: &DiffOp, old: &[u8; N], new: &[u8; N], idx: usize) -> Option<(ChangeTag, Option<usize>, Option<usize>, u8)> {
+    let (tag, or, nr) = op.as_tag_tuple();
+    let (ol, nl) = (or.end - or.start, nr.end - nr.start);
+    match tag {
+        DiffTag::Equal => {
+            if idx < ol {
+                Some((ChangeTag::Equal, Some(or.start + idx), Some(nr.start + idx), old[or.start + idx]))
+            } else {
+                None
+            }
+        }
+        DiffTag::Delete => {
+            if idx < ol {
+                Some((ChangeTag::Delete, Some(or.start + idx), None, old[or.start + idx]))
+            } else {
+                None
+            }
+        }
+        DiffTag::Insert => {
+            if idx < nl {
+                Some((ChangeTag::Insert, None, Some(nr.start + idx), new[nr.start + idx]))
+            } else {
+                None
+            }
+        }
+        DiffTag::Replace => {
+            if idx < ol {
+                Some((ChangeTag::Delete, Some(or.start + idx), None, old[or.start + idx]))
+            } else if idx - ol < nl {
+                Some((ChangeTag::Insert, None, Some(nr.start + (idx - ol)), new[nr.start + (idx - ol)]))
+            } else {
+                None
+            }
+        }
+    }
+}
+
+fn same_change(c: Option<similar::Change<u8>>, e: Option<(ChangeTag, Option<usize>, Option<usize>, u8)>) -> bool {
+    match (c, e) {
+        (None, None) => true,
+        (Some(c), Some(e)) => c.tag() == e.0 && c.old_index() == e.1 && c.new_index() == e.2 && c.value() == e.3,
+        _ => false,
+    }
+}
+
+/// C13: the sequence does not depend on how the iterator is driven - after `a` items taken
+/// with next(), nth(b) is item a+b of the stated sequence and the iteration continues behind
+/// it (this is what step_by / skip / nth callers see); size_hint brackets what is left.
+#[cfg_attr(kani, kani::proof)]
+#[cfg_attr(kani, kani::unwind(11))]
+pub fn expand_iter_changes_resumed() {
+    let old: [u8; N] = crate::src::any();
+    let new: [u8; N] = crate::src::any();
+    let op = any_op();
+    let a: usize = crate::src::any();
+    let b: usize = crate::src::any();
+    crate::src::assume(a <= 2 * MAXLEN && b <= 2 * MAXLEN);
+    let (_, or, nr) = op.as_tag_tuple();
+    let total = if op.tag() == DiffTag::Equal { or.end - or.start } else { (or.end - or.start) + (nr.end - nr.start) };
+    let mut it = op.iter_changes(&old[..], &new[..]);
+    let mut k = 0;
+    while k < a {
+        let c = it.next();
+        assert!(same_change(c, expected_change(&op, &old, &new, k)), "next() is not the stated item");
+        k += 1;
+    }
+    let left = if total > a { total - a } else { 0 };
+    let (lo, hi) = it.size_hint();
+    assert!(lo <= left, "size_hint lower bound exceeds the items left");
+    if let Some(h) = hi {
+        assert!(left <= h, "size_hint upper bound is below the items left");
+    }
+    let c = it.nth(b);
+    assert!(same_change(c, expected_change(&op, &old, &new, a + b)), "nth(b) after a items is not item a+b of the stated sequence");
+    if a + b < total {
+        let c2 = it.next();
+        assert!(same_change(c2, expected_change(&op, &old, &new, a + b + 1)), "the item after nth(b) is not item a+b+1");
+    }
+    crate::cover!(op.tag() == DiffTag::Replace && a >= 1 && a + b >= (or.end - or.start) && a + b < total);
+}
+
+/// Same for iter_slices (at most two items), plus count().
+#[cfg_attr(kani, kani::proof)]
+#[cfg_attr(kani, kani::unwind(6))]
+pub fn expand_iter_slices_resumed() {
+    let old: [u8; N] = crate::src::any();
+    let new: [u8; N] = crate::src::any();
+    let op = any_op();
+    let a: usize = crate::src::any();
+    let b: usize = crate::src::any();
+    crate::src::assume(a <= 3 && b <= 3);
+    let (tag, or, nr) = op.as_tag_tuple();
+    let total = if tag == DiffTag::Replace { 2 } else { 1 };
+    let expect = |idx: usize| -> Option<(ChangeTag, usize, usize)> {
+        let o = ((old.as_ptr() as usize) + or.start, or.end - or.start);
+        let n = ((new.as_ptr() as usize) + nr.start, nr.end - nr.start);
+        match (tag, idx) {
+            (DiffTag::Equal, 0) => Some((ChangeTag::Equal, o.0, o.1)),
+            (DiffTag::Delete, 0) => Some((ChangeTag::Delete, o.0, o.1)),
+            (DiffTag::Insert, 0) => Some((ChangeTag::Insert, n.0, n.1)),
+            (DiffTag::Replace, 0) => Some((ChangeTag::Delete, o.0, o.1)),
+            (DiffTag::Replace, 1) => Some((ChangeTag::Insert, n.0, n.1)),
+            _ => None,
+        }
+    };
+    let same = |g: Option<(ChangeTag, &[u8])>, e: Option<(ChangeTag, usize, usize)>| -> bool {
+        match (g, e) {
+            (None, None) => true,
+            (Some((t, s)), Some((et, p, l))) => t == et && s.len() == l && (s.as_ptr() as usize) == p,
+            _ => false,
+        }
+    };
+    let mut it = op.iter_slices(&old[..], &new[..]);
+    let mut k = 0;
+    while k < a {
+        assert!(same(it.next(), expect(k)), "next() is not the stated slice");
+        k += 1;
+    }
+    let left = if total > a { total - a } else { 0 };
+    let (lo, hi) = it.size_hint();
+    assert!(lo <= left && hi.map_or(true, |h| left <= h), "size_hint does not bracket the slices left");
+    assert!(same(it.nth(b), expect(a + b)), "nth(b) after a slices is not slice a+b");
+    let mut it2 = op.iter_slices(&old[..], &new[..]);
+    let mut k = 0;
+    while k < a {
+        it2.next();
+        k += 1;
+    }
+    assert!(it2.count() == left, "count() differs from the number of slices left");
+    crate::cover!(tag == DiffTag::Replace && a == 1 && b == 0);
+}
